@@ -47,11 +47,35 @@ def skeleton_tree():
 
 
 def scratch_base():
+    """Directory under which scratch copies are made: the per-run directory announced by the driver
+    (removed as a whole when the run ends), else tmpfs, else the temp dir."""
+    root = os.environ.get("EOLIB_VERIF_SCRATCH")
+    if root and os.path.isdir(root):
+        return root
     base = "/dev/shm" if os.path.isdir("/dev/shm") and os.access("/dev/shm", os.W_OK) else None
     return base or tempfile.gettempdir()
 
 
-def sweep_stale(max_age_s=6 * 3600):
+class scratch_session:
+    """Context manager used by every entry point: one scratch directory per run, inherited by all
+    worker processes and their forked children through the environment, removed at the end (worker
+    processes of a pool end with os._exit and never run their own clean-up)."""
+
+    def __enter__(self):
+        os.environ.pop("EOLIB_VERIF_SCRATCH", None)
+        self.root = tempfile.mkdtemp(prefix=SCRATCH_PREFIX + "run-", dir=scratch_base())
+        os.environ["EOLIB_VERIF_SCRATCH"] = self.root
+        self._pid = os.getpid()
+        return self.root
+
+    def __exit__(self, *exc):
+        if os.getpid() == self._pid:
+            os.environ.pop("EOLIB_VERIF_SCRATCH", None)
+            shutil.rmtree(self.root, ignore_errors=True)
+        return False
+
+
+def sweep_stale(max_age_s=3 * 3600):
     """Remove scratch directories left behind by killed runs (older than max_age_s)."""
     import time
 
